@@ -155,7 +155,9 @@ def obsOut (w0 w1 : World) : Obs → Sexp
   | .out i o =>
     .list [.atom "out", ofNat i, stepOut o,
            (match w1.renders[i]? with | some r => ctxOut r.ctx | none => .atom "N"),
-           .list ((changed w0.heap w1.heap).map ofNat)]
+           .list ((changed w0.heap w1.heap).map ofNat),
+           -- `len(stack)` inside `_flatten`: the suspended iterators (the model's list includes the current one)
+           (match w1.renders[i]? with | some r => ofNat r.stack.length | none => .atom "N")]
   | .extracted tr e =>
     .list [.atom "extracted", .list (tr.map ofNat),
            (match e with | some e => .atom (errName e) | none => .atom "ok"),
